@@ -18,11 +18,20 @@ for line in open(sys.argv[1]):
     if not os.path.exists(p):
         continue
     meta = json.load(open(p))
+    if dw == "0" and meta.get("confirmation"):
+        # the demonstration passes with the patch on the current HEAD: a later fix: commit made the change harmless;
+        # keep the original confirmation and note it
+        meta["confirmation"]["superseded_on_head"] = "at /repo %s the demonstration passes with the patch applied (a later fix: commit made this change harmless); the confirmation above is from the tree it was written for" % head
+        meta["confirmation"]["detected"] = meta["confirmation"].get("detected") or None
+        json.dump(meta, open(p, "w"), indent=1, ensure_ascii=False)
+        continue
+    prev = meta.get("confirmation") or {}
     meta["confirmation"] = {
         "ran": "tools/seedcheck.sh seeded/%s quick (scratch worktree of /repo at %s: demo without patch, demo with patch, full pinned suite with patch, ./check %s --tier quick with VERIF_REPO=<worktree>)" % (sid, head, pid),
         "demo_passes_without_patch": dwo == "0",
         "demo_fails_with_patch": dw != "0",
-        "repo_suite_with_patch": base,
+        "repo_suite_with_patch": base if base != "skipped" else prev.get("repo_suite_with_patch", base),
+        "first_run_detected": prev.get("first_run_detected", prev.get("detected")) if prev else None,
         "check_exit": int(rc),
         "violation_lines": int(nv),
         "first_violation": first.strip(),
@@ -36,7 +45,10 @@ for p in sorted(glob.glob(os.path.join(ROOT, "seeded", "*", "meta.json"))):
     if not c:
         continue
     rows.append("| %s | %s | %s | %s | %s | %s |" % (os.path.basename(os.path.dirname(p)), meta.get("property"), (meta.get("summary") or "").replace("|", "/")[:160],
-                                                  "yes" if c["demo_fails_with_patch"] and c["demo_passes_without_patch"] else "NO", c["repo_suite_with_patch"], "DETECTED" if c["detected"] else "missed"))
+                                                  "yes" if c["demo_fails_with_patch"] and c["demo_passes_without_patch"] else "NO", c["repo_suite_with_patch"],
+                                                  ("superseded on HEAD by a later fix (demo passes with the patch)" if c.get("superseded_on_head") and not c["detected"] else
+                                                   "DETECTED (after the check was strengthened; missed by the first run)" if c["detected"] and c.get("first_run_detected") is False else
+                                                   "DETECTED" if c["detected"] else "missed")))
 open(os.path.join(ROOT, "seeded", "RESULTS.md"), "w").write(
     "# Seeded changes (written by sub-agents that saw only the property text)\n\n| id | property | change | demo fails with / passes without | repo suite with patch | quick check |\n|---|---|---|---|---|---|\n" + "\n".join(rows) + "\n")
 print(len(rows), "seeded changes recorded;", sum("DETECTED" in r for r in rows), "detected")
